@@ -18,7 +18,8 @@ RULE = ('histories of 3-12 steps over a growing family of up to 6 live objects (
         'of the derivative.')
 
 SELECTIONS = [{}, {'chainID': 'A'}, {'chainID': ['B']}, {'name': ['CA', 'N', 'C', 'O']}, {'no_name': ['CA']},
-              {'resSeq': [1, 2, 10]}, {'chainID': 'A', 'no_resName': ['GLY']}]
+              {'resSeq': [1, 2, 10]}, {'chainID': 'A', 'no_resName': ['GLY']},
+              {'chainID': ['A', 'B']}, {'chainID': ['B', 'A'], 'no_name': ['O']}]     # several chains: rows still come in table order
 
 def sel_holds(sel, a):
     for k, v in sel.items():
@@ -182,7 +183,11 @@ def first_diff(a, b):
 def gen_case(rng):
     n = rng.randint(3, 9)
     fix = rng.random() < 0.3
-    atoms = gen_pdb.gen_atoms(rng, n, chains=(rng.choice([('C', 'D'), ('B', 'X'), ('A', 'B')]) if fix else ('A', 'B')))
+    atoms = gen_pdb.gen_atoms(rng, n, chains=(rng.choice([('C', 'D'), ('B', 'X'), ('A', 'B')]) if fix else rng.choice([('A', 'B'), ('A', 'B'), ('B', 'A')])))
+    if not fix and rng.random() < 0.2 and n >= 4:
+        # chain labels not in alphabetical order along the rows: interleave the two chain blocks
+        a_, b_ = [a for a in atoms if a['chainID'] == 'A'], [a for a in atoms if a['chainID'] == 'B']
+        atoms = [x for pair in zip(b_, a_) for x in pair] + b_[len(a_):] + a_[len(b_):]
     steps = []
     feats = set()
     derived = False
